@@ -244,7 +244,149 @@ theorem normalize_idem {s t : Bytes} (h : normalize s = .ok t) : normalize t = .
   unfold normalize
   simp [(scan_false_iff_canon t).mpr hc]
 
-#print axioms normalize_idem
-#print axioms normalize_total
-#print axioms normalize_ok_spec
+
+/-! ### equivalence classes: hex case and needless escaping are exactly what is forgotten -/
+inductive Tok where
+  | raw (b : UInt8)
+  | esc (v : UInt8)
+deriving DecidableEq, Repr
+
+def tokens : Bytes → Option (List Tok)
+  | [] => some []
+  | c :: cs =>
+    if c = 0x25 then
+      match cs with
+      | a :: b :: rest => if ishex a && ishex b then (tokens rest).map (Tok.esc (val a b) :: ·) else none
+      | _ => none
+    else (tokens cs).map (Tok.raw c :: ·)
+
+def hexU (n : UInt8) : UInt8 := if n < 10 then 0x30 + n else 0x41 + (n - 10)
+
+/-- the canonical spelling of a token: an escape of an unreserved byte becomes the byte itself -/
+def canonTok : Tok → Tok
+  | .raw b => .raw b
+  | .esc v => if shouldEscape v then .esc v else .raw v
+
+def render : List Tok → Bytes
+  | [] => []
+  | .raw b :: ts => b :: render ts
+  | .esc v :: ts => 0x25 :: hexU (v >>> 4) :: hexU (v &&& 15) :: render ts
+
+theorem up_eq_hexU : ∀ a : UInt8, ishex a = true → ∀ b : UInt8, ishex b = true →
+    up a = hexU (val a b >>> 4) ∧ up b = hexU (val a b &&& 15) := by
+  -- nibble-wise: 22 hex digits on each side
+  have key : ∀ a : UInt8, ishex a = true → unhex a < 16 ∧ hexU (unhex a) = up a := by
+    apply forall_byte; decide +kernel
+  have nib : ∀ x y : Fin 16, ((UInt8.ofNat x.val <<< 4 ||| UInt8.ofNat y.val) >>> 4 = UInt8.ofNat x.val) ∧
+      ((UInt8.ofNat x.val <<< 4 ||| UInt8.ofNat y.val) &&& 15 = UInt8.ofNat y.val) := by decide +kernel
+  intro a ha b hb
+  obtain ⟨ha1, ha2⟩ := key a ha
+  obtain ⟨hb1, hb2⟩ := key b hb
+  have hx : unhex a = UInt8.ofNat (unhex a).toNat := by simp
+  have hy : unhex b = UInt8.ofNat (unhex b).toNat := by simp
+  have hxl : (unhex a).toNat < 16 := by have := UInt8.lt_iff_toNat_lt.mp ha1; simpa using this
+  have hyl : (unhex b).toNat < 16 := by have := UInt8.lt_iff_toNat_lt.mp hb1; simpa using this
+  have := nib ⟨(unhex a).toNat, hxl⟩ ⟨(unhex b).toNat, hyl⟩
+  simp only at this
+  rw [← hx, ← hy] at this
+  unfold val
+  rw [this.1, this.2, ha2, hb2]
+  exact ⟨rfl, rfl⟩
+
+theorem slow_eq_render (s : Bytes) (h : Valid s) :
+    ∃ ts, tokens s = some ts ∧ slow s = .ok (render (ts.map canonTok)) := by
+  induction h with
+  | nil => exact ⟨[], rfl, rfl⟩
+  | @raw c s hc _ ih =>
+    obtain ⟨ts, ht, hs⟩ := ih
+    refine ⟨Tok.raw c :: ts, ?_, ?_⟩
+    · conv => lhs; unfold tokens
+      simp [hc, ht]
+    · conv => lhs; unfold slow
+      simp [hc, hs, Outcome.map, canonTok, render]
+  | @esc a b s ha hb _ ih =>
+    obtain ⟨ts, ht, hs⟩ := ih
+    refine ⟨Tok.esc (val a b) :: ts, ?_, ?_⟩
+    · conv => lhs; unfold tokens
+      simp [ha, hb, ht]
+    · conv => lhs; unfold slow
+      obtain ⟨h1, h2⟩ := up_eq_hexU a ha b hb
+      by_cases hse : shouldEscape (val a b) = true
+      · simp [hs, Outcome.map, canonTok, render, hse, h1, h2]
+      · have : shouldEscape (val a b) = false := by simpa using hse
+        simp [hs, Outcome.map, canonTok, render, this]
+
+theorem up_id : ∀ a : UInt8, ishex a = true → isLower a = false → up a = a := by
+  apply forall_byte; decide +kernel
+
+theorem canon_eq_render (s : Bytes) (h : Canon s) :
+    ∃ ts, tokens s = some ts ∧ render (ts.map canonTok) = s := by
+  induction h with
+  | nil => exact ⟨[], rfl, rfl⟩
+  | @raw c s hc _ ih =>
+    obtain ⟨ts, ht, hs⟩ := ih
+    refine ⟨Tok.raw c :: ts, ?_, ?_⟩
+    · conv => lhs; unfold tokens
+      simp [hc, ht]
+    · simp [canonTok, render, hs]
+  | @esc a b s ha hb hn _ ih =>
+    obtain ⟨ts, ht, hs⟩ := ih
+    refine ⟨Tok.esc (val a b) :: ts, ?_, ?_⟩
+    · conv => lhs; unfold tokens
+      simp [ha, hb, ht]
+    · simp only [needs, Bool.or_eq_false_iff, Bool.not_eq_false'] at hn
+      obtain ⟨⟨hla, hlb⟩, hse⟩ := hn
+      obtain ⟨h1, h2⟩ := up_eq_hexU a ha b hb
+      rw [up_id a ha hla] at h1
+      rw [up_id b hb hlb] at h2
+      simp [canonTok, render, hse, hs, ← h1, ← h2]
+
+theorem valid_of_tokens (s : Bytes) : ∀ ts, tokens s = some ts → Valid s := by
+  fun_induction tokens s with
+  | case1 => intro _ _; exact Valid.nil
+  | case2 a b rest hh ih =>
+    intro ts h
+    simp only [Bool.and_eq_true] at hh
+    cases hr : tokens rest with
+    | none => simp [hr] at h
+    | some tr => exact Valid.esc hh.1 hh.2 (ih tr hr)
+  | case3 a b rest hh => intro ts h; simp at h
+  | case4 cs hcs => intro ts h; simp at h
+  | case5 c cs hc ih =>
+    intro ts h
+    cases hr : tokens cs with
+    | none => simp [hr] at h
+    | some tr => exact Valid.raw hc (ih tr hr)
+
+/-- the normal form is a function of the canonical token list alone -/
+theorem normalize_eq_render {s : Bytes} {ts : List Tok} (ht : tokens s = some ts) :
+    normalize s = .ok (render (ts.map canonTok)) := by
+  have hv : Valid s := valid_of_tokens s ts ht
+  obtain ⟨ts', ht', hslow⟩ := slow_eq_render s hv
+  have hts : ts' = ts := by rw [ht] at ht'; cases ht'; rfl
+  subst hts
+  unfold normalize
+  cases hsc : scan s with
+  | none =>
+    have := (scan_some_iff_valid s).mpr hv
+    simp [hsc] at this
+  | some b =>
+    cases b with
+    | false =>
+      simp only
+      obtain ⟨ts'', ht'', hr⟩ := canon_eq_render s ((scan_false_iff_canon s).mp hsc)
+      rw [ht] at ht''; cases ht''
+      rw [hr]
+    | true => simpa using hslow
+
+/-- **C12, last clause**: two escaped paths with the same canonical tokens — i.e. differing only in hex case or
+    in needless escaping of unreserved bytes — have the same normal form (and hence reach the same route with
+    the same arguments, since the router only ever sees the normal form). -/
+theorem normalize_equiv {s s' : Bytes} {ts ts' : List Tok} (h : tokens s = some ts) (h' : tokens s' = some ts')
+    (heq : ts.map canonTok = ts'.map canonTok) : normalize s = normalize s' := by
+  rw [normalize_eq_render h, normalize_eq_render h', heq]
+
+example : normalize [0x2f, 0x25, 0x33, 0x66, 0x25, 0x36, 0x31] = normalize [0x2f, 0x25, 0x33, 0x46, 0x61] := by decide
+
+#print axioms normalize_equiv
 end Norm
